@@ -34,6 +34,28 @@ pub fn run_obs(op: &str, step: &Value, regs: &Regs, ctx: &mut Ctx, keys: &crate:
     Ok(Some(match op {
         "obs_structure" => {
             let e = reg(regs, a(0))?;
+            // the try_ / as_ / is_ forms of one question must agree with each other
+            {
+                let same = |name: &str, got: bool, want: bool| -> Result<(), String> {
+                    if got == want { Ok(()) } else { Err(format!("#variant:{}# {} answers {} where the basic query says {}", name, name, got, want)) }
+                };
+                same("as_leaf", e.as_leaf().is_some(), e.is_leaf())?;
+                same("try_leaf", e.try_leaf().is_ok(), e.is_leaf())?;
+                same("as_known_value", e.as_known_value().is_some(), e.is_known_value())?;
+                same("try_known_value", e.try_known_value().is_ok(), e.is_known_value())?;
+                same("as_assertion", e.as_assertion().map(|x| x.digest() == e.digest()).unwrap_or(false), e.is_assertion())?;
+                same("try_assertion", e.try_assertion().map(|x| x.digest() == e.digest()).unwrap_or(false), e.is_assertion())?;
+                same("try_predicate", e.try_predicate().is_ok(), e.is_assertion())?;
+                same("try_object", e.try_object().is_ok(), e.is_assertion())?;
+                same("as_predicate", e.as_predicate().is_some(), e.is_assertion())?;
+                let leaf_bytes = e.as_leaf().map(|c| c.to_cbor_data());
+                let is_bstr = leaf_bytes.as_ref().map(|b| b[0] >> 5 == 2).unwrap_or(false);
+                same("try_byte_string", e.try_byte_string().is_ok(), is_bstr)?;
+                let sub = e.subject().as_leaf().map(|c| c.to_cbor_data());
+                same("is_null", e.is_null(), sub.as_deref() == Some(&[0xf6]))?;
+                same("is_true", e.is_true(), sub.as_deref() == Some(&[0xf5]))?;
+                same("is_false", e.is_false(), sub.as_deref() == Some(&[0xf4]))?;
+            }
             json!({
                 "is_leaf": e.is_leaf(), "is_node": e.is_node(), "is_wrapped": e.is_wrapped(),
                 "is_known_value": e.is_known_value(), "is_assertion": e.is_assertion(),
@@ -311,8 +333,15 @@ pub fn run_obs(op: &str, step: &Value, regs: &Regs, ctx: &mut Ctx, keys: &crate:
                     _ => rb(a1),
                 }
             }).collect();
+            let unverified_is_false = |r: anyhow::Result<Envelope>| rb(r.map(|_| true).or_else(|er| {
+                if er.downcast_ref::<bc_envelope::EnvelopeError>().map(|x| matches!(x, bc_envelope::EnvelopeError::UnverifiedSignature)).unwrap_or(false) { Ok(false) } else { Err(er) }
+            }));
             let threshold = if th == 0 {
-                if var % 2 == 0 { rb(e.has_signatures_from(&pubs)) } else { rb(e.has_signatures_from_threshold(&pubs, None)) }
+                match var % 3 {
+                    0 => rb(e.has_signatures_from(&pubs)),
+                    1 => rb(e.has_signatures_from_threshold(&pubs, None)),
+                    _ => unverified_is_false(e.verify_signatures_from(&pubs)),
+                }
             } else if var % 2 == 0 {
                 rb(e.has_signatures_from_threshold(&pubs, Some(th)))
             } else {
@@ -320,11 +349,34 @@ pub fn run_obs(op: &str, step: &Value, regs: &Regs, ctx: &mut Ctx, keys: &crate:
                     if er.downcast_ref::<bc_envelope::EnvelopeError>().map(|x| matches!(x, bc_envelope::EnvelopeError::UnverifiedSignature)).unwrap_or(false) { Ok(false) } else { Err(er) }
                 }))
             };
-            let metadata = match e.verify_signature_from_returning_metadata(pubs[0]) {
-                Ok(m) => json!(["ok", dhex(&m)]),
-                Err(er) => json!(["err", err_kind(&er)]),
+            let md_a = e.verify_signature_from_returning_metadata(pubs[0]);
+            let md_b = e.has_signature_from_returning_metadata(pubs[0]);
+            // the has_ form (None = no signature) must agree with the verify_ form
+            let agree = match (&md_a, &md_b) {
+                (Ok(x), Ok(Some(y))) => x.digest() == y.digest(),
+                (Err(_), Ok(None)) | (Err(_), Err(_)) => true,
+                _ => false,
             };
-            json!({"each": each, "threshold": threshold, "metadata": metadata, "verify": res_digest(e.verify(pubs[0]))})
+            let metadata = if !agree {
+                json!(["ok", "verify_signature_from_returning_metadata and has_signature_from_returning_metadata disagree"])
+            } else {
+                match md_a {
+                    Ok(m) => json!(["ok", dhex(&m)]),
+                    Err(er) => json!(["err", err_kind(&er)]),
+                }
+            };
+            // verify_returning_metadata = verify + the metadata above
+            let verify = if var % 2 == 0 { res_digest(e.verify(pubs[0])) } else {
+                match e.verify_returning_metadata(pubs[0]) {
+                    Ok((inner, m)) => {
+                        if metadata[0] == "ok" && metadata[1] != json!(dhex(&m)) {
+                            json!(["ok", "verify_returning_metadata hands out other metadata than verify_signature_from_returning_metadata"])
+                        } else { res_digest(Ok(inner)) }
+                    }
+                    Err(er) => res_digest(Err(er)),
+                }
+            };
+            json!({"each": each, "threshold": threshold, "metadata": metadata, "verify": verify})
         }
         "obs_confirm" => {
             let root = reg(regs, a(0))?;
